@@ -247,6 +247,8 @@ class OutputFiles:
             raise ValueError("Expected one or two paths")
         if interleaved and len(paths) != 1:
             raise ValueError("Cannot write to two files when interleaved is True")
+        if paths == (None,):
+            paths = ("-",)
         if len(paths) == 1 and paths[0] == "-" and force_fasta:
             kwargs["fileformat"] = "fasta"
         else:
@@ -258,8 +260,6 @@ class OutputFiles:
             }
             if len(formats) == 1:
                 kwargs["fileformat"] = formats.pop()
-        if paths == (None,):
-            paths = ("-",)
         for path in paths:
             assert path is not None
         binary_files = []
